@@ -226,7 +226,13 @@ def run(ctx):
             origin[key] = org
 
     subs = None
-    for sl in (SLICES_QUICK if quick else SLICES_THOROUGH):
+    slices = SLICES_QUICK if quick else SLICES_THOROUGH
+    if ctx.replay:
+        # --replay <evidence/replays/C15/*.json>: only the recorded template (the tiny slice below just delivers the catalogue)
+        with open(ctx.replay) as fh:
+            rp = json.load(fh)["replay"]
+        slices = [("catalogue", 1, 1, ["task"], ["none"], ["T"], ["none"], ["none"], [], False, ["plain"], ["none"])]
+    for sl in slices:
         name = sl[0]
         r = ctx.model_check("WorkflowLoadGen", None, cfg_text=cfg_gen(*sl[1:]), workers=min(nw, 8) if not quick else min(nw, 4),
                             extra=["-dump", "states"], timeout=1200)
@@ -246,11 +252,16 @@ def run(ctx):
         ctx.log("slice %s: %d templates" % (name, len(sts)))
         os.remove(os.path.join(r.dir, "states.dump"))
     nsim = 50 if quick else 250
+    if ctx.replay:
+        cases.clear()
+        add_case({"T": rp["T"], "uv": rp["uv"]}, "replay")
+        nsim = 1
     behs = ctx.simulate("WorkflowLoadGen", None, nsim, SIM[0] + 1, cfg_text=cfg_gen(*SIM, invs=False), seed=ctx.seed * 104729 + 17)
     nb = len(cases)
     for b in behs:
         for (a, args, st) in b[1:]:
-            add_case(st, "simulate")
+            if not ctx.replay:
+                add_case(st, "simulate")
     ctx.log("simulate: %d behaviours, %d new templates" % (len(behs), len(cases) - nb))
     ctx.extra["exhaustive_slices"] = [m for m in ctx.model_runs if m["module"] == "WorkflowLoadGen"]
 
@@ -321,14 +332,14 @@ def run(ctx):
     by_scn = {x["scn"]: x for x in lines}
     judge(ctx, viol, drift, by_scn, by_id, origin, keys, "main")
 
-    if predicted:
+    if predicted and not ctx.replay:
         hit = [v for v in viol if v[1] == "AllOrNothing"]
         if not hit:
             raise vlib.Inconclusive("MODEL-UNREPRODUCED: WorkflowLoadErr violates %s (shared err in the iterator path) but no gated "
                                     "schedule made the real loader swallow an error" % predicted)
 
     # 5. thorough: the same under the race detector, on the cases with concurrency in them
-    if not quick:
+    if not quick and not ctx.replay:
         sub = [s for s in scen if has_for(s["T"]) or any(n["ps"] for n in s["T"])]
         rng = random.Random(ctx.seed)
         rng.shuffle(sub)
